@@ -41,3 +41,11 @@ std::string c14_utf_to_utf(char const *b, char const *e, booster::locale::conv::
 {
 	return booster::locale::conv::utf_to_utf<char, char>(b, e, how);
 }
+std::string c14_utf_to_utf_string(std::string const &s, booster::locale::conv::method_type how)
+{
+	return booster::locale::conv::utf_to_utf<char, char>(s, how);
+}
+std::string c14_utf_to_utf_cstr(char const *s, booster::locale::conv::method_type how)
+{
+	return booster::locale::conv::utf_to_utf<char, char>(s, how);
+}
